@@ -30,6 +30,7 @@ func runC13(c *Ctx) {
 	c.Rule("A1-asmdecl: `go vet -asmdecl` (assembly frame/argument layout vs Go declaration) is clean for amd64 and arm64")
 	c.Rule("A1-asmbody: every body-less Go function declaration has a TEXT symbol in an assembly file selected for the same configuration")
 	c.Rule("A1-dispatch: every function-typed dispatch slot (package-level func variable or constant-indexed element of a func array) stored from init-reachable code on amd64/arm64 is also stored from init-reachable code in the portable configuration (linux/riscv64 selects every !amd64 && !arm64 file); every dispatch variable that is called has a portable default")
+	c.Rule("A1-delegate: every function that exists only in the portable build (file selected for linux/riscv64 but not for linux/amd64) is a pure delegation: its body only forwards its parameters to functions that are compiled on every platform, possibly under a switch on a parameter; it contains no arithmetic, loop, load or store of its own, so the portable path is the reference kernel the amd64 tests also exercise")
 	c.Rule("A1-nocgo: no Go file of the module imports \"C\"")
 	c.NotCovered("that assembly kernels and Go kernels compute the same values for all inputs (value-level; needs execution or a solver)")
 	c.NotCovered("AVX2 vs SSE2 agreement")
@@ -96,6 +97,7 @@ func runC13(c *Ctx) {
 	type slots map[string]bool
 	perCfg := map[string]slots{}
 	called := map[string]slots{}
+	progs := map[string]*Program{}
 	for _, cf := range [][2]string{{"linux", "riscv64"}, {"linux", "amd64"}, {"linux", "arm64"}} {
 		p := c.load(cf[0], cf[1])
 		if p == nil {
@@ -103,7 +105,9 @@ func runC13(c *Ctx) {
 		}
 		perCfg[p.Label], called[p.Label] = dispatchSlots(c, p)
 		asmBodies(c, p)
+		progs[p.Label] = p
 	}
+	a1Delegates(c, progs)
 	c.SetConfig("cross-config")
 	port := perCfg["linux/riscv64"]
 	n := 0
@@ -347,4 +351,88 @@ func asmBodies(c *Ctx, p *Program) {
 			}
 		}
 	}
+}
+
+// a1Delegates: portable-only functions must be pure delegations to code compiled everywhere.
+func a1Delegates(c *Ctx, progs map[string]*Program) {
+	port, amd := progs["linux/riscv64"], progs["linux/amd64"]
+	if port == nil || amd == nil {
+		return
+	}
+	c.SetConfig("linux/riscv64")
+	amdFiles := map[string]bool{}
+	for _, pk := range amd.Pkgs {
+		for _, f := range pk.CompiledGoFiles {
+			amdFiles[f] = true
+		}
+	}
+	n := 0
+	for _, fn := range port.SrcFuncs() {
+		if fn.Parent() != nil || fn.Synthetic != "" {
+			continue
+		}
+		file := port.Fset.Position(fn.Pos()).Filename
+		if file == "" || amdFiles[file] {
+			continue
+		}
+		n++
+		cons := FnName(fn)
+		bad := ""
+		params := map[ssa.Value]bool{}
+		for _, pa := range fn.Params {
+			params[pa] = true
+		}
+		okVal := func(v ssa.Value) bool {
+			if params[v] {
+				return true
+			}
+			switch x := v.(type) {
+			case *ssa.Const:
+				return true
+			case *ssa.Slice:
+				// p[:] style pass-through of a parameter
+				return params[x.X] && x.Low == nil && x.High == nil
+			}
+			return false
+		}
+		for _, b := range fn.Blocks {
+			for _, in := range b.Instrs {
+				switch x := in.(type) {
+				case *ssa.Call:
+					callee := x.Call.StaticCallee()
+					if callee == nil {
+						bad = "dynamic call at " + port.Pos(x.Pos())
+						break
+					}
+					cf := port.Fset.Position(callee.Pos()).Filename
+					if port.IsModFunc(callee) && !amdFiles[cf] {
+						bad = "calls " + callee.Name() + ", which is not compiled on amd64 either"
+					}
+					for _, a := range x.Call.Args {
+						if !okVal(a) {
+							bad = "argument of " + callee.Name() + " is computed here rather than passed through (" + port.Pos(x.Pos()) + ")"
+						}
+					}
+				case *ssa.Return:
+					for _, r := range x.Results {
+						if _, isCall := r.(*ssa.Call); !isCall && !okVal(r) {
+							if _, isExt := r.(*ssa.Extract); !isExt {
+								bad = "returns a value computed here (" + port.Pos(x.Pos()) + ")"
+							}
+						}
+					}
+				case *ssa.If, *ssa.Jump, *ssa.DebugRef, *ssa.Extract:
+				case *ssa.BinOp:
+					// only the comparisons of a switch on a parameter
+					if !(x.Op == token.EQL && okVal(x.X) && okVal(x.Y)) {
+						bad = "computes " + x.String() + " at " + port.Pos(x.Pos())
+					}
+				default:
+					bad = fmt.Sprintf("does more than forwarding: %T at %s", in, port.Pos(in.Pos()))
+				}
+			}
+		}
+		c.Check(bad == "", "A1-delegate", cons, port.Pos(fn.Pos()), "pure delegation to code compiled on every platform", "portable-only function is not a pure delegation: "+bad+"; its behaviour is exercised by no amd64 test and may diverge from the reference kernel")
+	}
+	c.Floor("A1-delegate", n, 10)
 }
